@@ -159,7 +159,13 @@ def run(ctx):
             ctl = devices.ControllerDevice(cid, rng, b.log)
             nb_slot = rng.choice([1, 3, 9])
             neighbour = rt.Device(devices.random_identity(rng, vend_ids, type_ids), rng, b.log)
-            t2 = rt.RefTarget(rng, front=ctl, routes={((1, 0),): ctl, ((1, nb_slot),): neighbour}, log=b.log)
+            # in a rack the Ethernet port belongs to a communication module: it answers ListIdentity, the controller sits behind the
+            # backplane route - `info` / get_plc_info() describe the controller, not whoever answered ListIdentity
+            front2 = ctl
+            if not micro and rng.random() < 0.6:
+                front2 = rt.Device(devices.random_identity(rng, vend_ids, type_ids), rng, b.log)
+            res.seen("logix-front", "bridge" if front2 is not ctl else "controller", micro)
+            t2 = rt.RefTarget(rng, front=front2, routes={((1, 0),): ctl, ((1, nb_slot),): neighbour}, log=b.log)
             b.set_target(t2)
             ld = p.LogixDriver(b.host, init_tags=False)
             st, out = b.call("open", ld.open)
